@@ -108,6 +108,8 @@ class ModeWrapper(KDDataset):
             return [self[i] for i in idx]
         if idx < 0:
             idx = len(self) + idx
+            if idx < 0:
+                raise IndexError(f"index {idx - len(self)} is out of range for a dataset of length {len(self)}")
 
         items = []
         ctx = {} if self.propagate_ctx else None
